@@ -642,6 +642,7 @@ def run_batch1(ctx, exe, label, W, cases, small_exe=None):
     fails = []
     jobs = []
     verdicts = []
+    small_dead = False
     for ci, (ops, tag) in enumerate(cases):
         lines = il[pos:pos + len(ops)]
         v = judge(ops, lines, W, rc, err)
@@ -654,10 +655,14 @@ def run_batch1(ctx, exe, label, W, cases, small_exe=None):
             fails.append(("oracle", ci, i, msg))
         for (i, ml, cmp, P) in v.model_jobs:
             jobs.append((ci, i, ml, cmp, P))
-        if sl is not None:
+        if sl is not None and not small_dead:
             s2 = sl[pos:pos + len(ops)]
             if len(s2) < len(ops):
-                fails.append(("capacity", ci, len(s2), "ADEPT_INITIAL_STACK_LENGTH=2 build stopped: rc=%s %s" % (rc2, err2[-800:])))
+                # the small-capacity process died inside this case; the cases after it are not compared in this batch
+                small_dead = True
+                fails.append(("capacity", ci, len(s2), "the ADEPT_INITIAL_STACK_LENGTH=2 build stopped at op %d (%s) of a case the "
+                              "default-capacity build completes: rc=%s %s" % (len(s2), ops[len(s2)] if len(s2) < len(ops) else "?", rc2,
+                                                                              " ".join(l for l in err2.split("\n") if "ERROR" in l or "#1 " in l or "#2 " in l)[:600])))
             else:
                 nf = sum(l.count(" F") for o, l in zip(ops, s2) if o == "ev")
                 ctx.notes["F_events_small_capacity"] = ctx.notes.get("F_events_small_capacity", 0) + nf
@@ -731,7 +736,7 @@ def run(ctx, replay):
     variants = [("sse2", dict(packets="sse2"))]
     if ctx.tier == "thorough":
         variants.append(("avx", dict(packets="avx")))
-    small = ctx.tier == "thorough"
+    small = True     # the ADEPT_INITIAL_STACK_LENGTH=2 build runs in both tiers (same cases, tapes must not depend on capacity)
     with ThreadPoolExecutor(max_workers=3) as ex:
         futs = [ex.submit(ac.build, **kw) for _, kw in variants]
         fsmall = ex.submit(ac.build, stack_len=2) if small else None
